@@ -1489,7 +1489,7 @@ func NewLockManagerDataUnsetData(isAof bool) *LockManagerData {
 }
 
 func (self *LockManagerData) GetValueOffset() int {
-	if self.data == nil || len(self.data) < 8 {
+	if self == nil || self.data == nil || len(self.data) < 8 {
 		return 6
 	}
 	if self.data[5]&protocol.LOCK_DATA_FLAG_CONTAINS_PROPERTY != 0 {
